@@ -8,6 +8,8 @@
    submissions, writer/reader/orphaner steps, the peer receiving and answering in any order,
    callers cancelling at any moment, breaks. *)
 From SV Require Import Base.Prelude Model.Streams Proofs.Streams_proofs.
+From SV Require Import Model.StreamsTrace Proofs.StreamsTrace_proofs.
+From SV Require Model.ConnFail.
 Open Scope N_scope.
 
 (* ---- C02_bitmap_refines, in three parts: the bitmap code refines the set [used] ---- *)
@@ -133,6 +135,69 @@ Theorem C02_sm_spec : forall ops, sm_applicable ops = true -> Forall op_in_range
   sm_check ops (snd (hm_run hm_new ops)) = true.
 Proof. exact sm_spec. Qed.
 
+(* ---- the handler map WITH the orphans' ages (Model/StreamsTrace.v, part 4) ----
+   [th_run] executes operations that carry the reading of the clock; [untimed] forgets the clock.
+   The timed map returns what the untimed map returns and holds the same data, for EVERY sequence
+   and EVERY clock: nothing but old_orphans_count depends on the ages. *)
+Theorem C02_timed_refines : forall ops t m, TRel t m ->
+  TRel (fst (th_run t ops)) (fst (hm_run m (untimed ops))) /\
+  untimed_res (snd (th_run t ops)) = snd (hm_run m (untimed ops)).
+Proof. exact th_refines. Qed.
+
+(* the same operations under any two clocks give the same return values: an allocation succeeds
+   in one run iff it succeeds in the other, however long the orphans have been waiting *)
+Theorem C02_clock_independent : forall a b, same_ops a b ->
+  untimed_res (snd (th_run th_new a)) = untimed_res (snd (th_run th_new b)).
+Proof. exact th_clock_independent. Qed.
+
+(* allocation fails iff all 32768 bits are set -- the orphanage and its ages are not consulted *)
+Theorem C02_timed_alloc_full : forall t rid tok, wf_words (th_words t) ->
+  ((forall j, j < nids -> used (th_words t) j = true) <-> th_allocate t rid tok = (t, AllocFull)).
+Proof. exact th_alloc_full. Qed.
+
+(* old_orphans_count: at most the number of orphans, grows with the clock, shrinks when the same
+   ids were orphaned later, 0 while every orphan is younger than the threshold *)
+Theorem C02_old_count_le : forall o now age,
+  ot_older_than o now age <= N.of_nat (List.length (ot_by o)).
+Proof. exact older_than_le. Qed.
+Theorem C02_old_count_mono : forall o now now' age, now <= now' ->
+  ot_older_than o now age <= ot_older_than o now' age.
+Proof. exact older_than_mono_now. Qed.
+Theorem C02_old_count_bracket : forall l1 l2 mn mn', mn <= mn' ->
+  Forall2 (fun e1 e2 => snd e2 = snd e1 /\ fst e2 <= fst e1) l1 l2 ->
+  (List.length (filter (is_old mn) l1) <= List.length (filter (is_old mn') l2))%nat.
+Proof. exact older_than_mono_times. Qed.
+Theorem C02_old_count_young : forall o now age,
+  (forall e, In e (ot_by o) -> now - age < fst e) -> ot_older_than o now age = 0.
+Proof. exact older_than_young. Qed.
+
+(* ---- the end-to-end acceptor (Model/StreamsTrace.v, part 5) ----
+   [obs_run conn_init ls] is what an outside observer sees of the run ls: requests submitted,
+   frames received and sent by the peer, what the callers got.  [c02_trace_ok] is the property
+   as a checker over such a history.  Every run of the model, of any length and for any
+   schedule, in which all written frames have reached the peer, is accepted; hence a history of
+   the real connection that the acceptor rejects is not a behaviour of the model. *)
+Theorem C02_trace_sound : forall ls s, run conn_init ls = Some s -> c_writing s = [] ->
+  c02_trace_ok (obs_run conn_init ls) = true.
+Proof. exact trace_sound. Qed.
+
+(* without the final condition every event is still accepted (it is only needed to justify an
+   UnableToAllocStreamId by the 32768 requests that had reached or would reach the peer) *)
+Theorem C02_trace_prefix : forall ls s, run conn_init ls = Some s ->
+  exists a, acc_run acc_init (obs_run conn_init ls) = Some a.
+Proof. exact trace_sound_prefix. Qed.
+
+(* ---- the frame reader on the byte stream (part 6; [parse_frame] = C10's model of
+   read_response_frame) ---- exactly 9 + `length` bytes per frame, for any length *)
+Theorem C02_reader_exact : forall f rest, frame_wf f ->
+  ConnFail.parse_frame (ConnFail.f_raw f ++ rest) = ConnFail.Got f rest.
+Proof. exact parse_frame_exact. Qed.
+
+Theorem C02_reader_frames : forall fs k rest, Forall frame_wf fs ->
+  read_frames (List.length fs + k) (concat (map ConnFail.f_raw fs) ++ rest) =
+  (fs ++ fst (read_frames k rest), snd (read_frames k rest)).
+Proof. exact read_frames_exact. Qed.
+
 (* ---- non-vacuity: concrete schedules and states ---- *)
 Example C02_ex_check_rejects :
   sm_check [OpAlloc 1 10; OpAlloc 2 11] [RAlloc (AllocOk 0) 10; RAlloc (AllocOk 0) 11] = false /\
@@ -181,6 +246,39 @@ Example C02_ex_ops :
      RLookup LOrphaned; RLookup LMissing; RProbe false; RAlloc (AllocOk 0) 102].
 Proof. vm_compute. reflexivity. Qed.
 
+(* the acceptor accepts the history of C02_sched and rejects: an id carried by two unanswered
+   requests (the second one after its caller abandoned the first), an answer handed to another
+   caller, an answer nobody sent, an allocation failure with nothing outstanding *)
+Example C02_ex_trace_ok :
+  c02_trace_ok (obs_run conn_init C02_sched) = true /\
+  obs_run conn_init [Submit; Submit; WriterTake; WriterTake; PeerRecv; PeerRecv; PeerAnswer 1;
+                     ReaderDeliver; Complete 1]
+  = [ESub 0; ESub 1; EIn 0 0; EIn 1 1; EOut 1 1; EDone 1 (ORows 1)].
+Proof. split; vm_compute; reflexivity. Qed.
+
+Example C02_ex_trace_rejects :
+  c02_trace_ok [ESub 1; ESub 2; EIn 0 1; EIn 0 2] = false /\
+  c02_trace_ok [ESub 1; ESub 2; EIn 0 1; EIn 1 2; EOut 0 1; EDone 2 (ORows 1)] = false /\
+  c02_trace_ok [ESub 1; EIn 0 1; EDone 1 (ORows 1)] = false /\
+  c02_trace_ok [ESub 1; ESub 2; EIn 0 1; EDone 2 OErrAlloc] = false /\
+  c02_trace_ok [ESub 1; ESub 2; EIn 0 1; EOut 0 1; EIn 0 2; EOut 0 2; EDone 2 (ORows 2)] = true.
+Proof. repeat split; vm_compute; reflexivity. Qed.
+
+(* ages: an id orphaned at time 5 is old from 5 + 1 s on; allocation does not look *)
+Example C02_ex_timed :
+  snd (th_run th_new [TOp (OpAlloc 1 1) 0; TOp (OpAlloc 2 2) 1; TOp (OpOrphan 1) 5;
+                      TCount (4 + old_age_ns); TCount (5 + old_age_ns); TOp (OpAlloc 3 3) (2 * old_age_ns);
+                      TOp (OpLookup 0) (2 * old_age_ns); TCount (3 * old_age_ns)])
+  = [TRes (RAlloc (AllocOk 0) 1); TRes (RAlloc (AllocOk 1) 2); TRes RUnit; TCnt 0; TCnt 1;
+     TRes (RAlloc (AllocOk 2) 3); TRes (RLookup LOrphaned); TCnt 0].
+Proof. vm_compute. reflexivity. Qed.
+
+Example C02_ex_reader :
+  read_frames 3 [132; 0; 0; 7; 8; 0; 0; 0; 2; 170; 187;  132; 0; 0; 9; 8; 0; 0; 0; 0;  132; 0]
+  = ([ConnFail.mk_frame [132; 0; 0; 7; 8; 0; 0; 0; 2] [170; 187];
+      ConnFail.mk_frame [132; 0; 0; 9; 8; 0; 0; 0; 0] []], RdNeedMore 2).
+Proof. vm_compute. reflexivity. Qed.
+
 Print Assumptions C02_bitmap_alloc.
 Print Assumptions C02_bitmap_full.
 Print Assumptions C02_bitmap_free.
@@ -197,3 +295,14 @@ Print Assumptions C02_exhaustion_reachable.
 Print Assumptions C02_no_spurious_break.
 Print Assumptions C02_unsolicited.
 Print Assumptions C02_sm_spec.
+Print Assumptions C02_timed_refines.
+Print Assumptions C02_clock_independent.
+Print Assumptions C02_timed_alloc_full.
+Print Assumptions C02_old_count_le.
+Print Assumptions C02_old_count_mono.
+Print Assumptions C02_old_count_bracket.
+Print Assumptions C02_old_count_young.
+Print Assumptions C02_trace_sound.
+Print Assumptions C02_trace_prefix.
+Print Assumptions C02_reader_exact.
+Print Assumptions C02_reader_frames.
